@@ -259,15 +259,20 @@ fn value_space(maxlen: usize) -> ValueSpace {
         }
     }
     // per universe: list of (canon, recipe, value, is_base)
-    let per: Vec<Vec<(String, String, ReplicatedValue, bool)>> = par::par_map(&unis, |_, &(a, b)| {
+    let seqs_by_n: Vec<Vec<Vec<usize>>> = (0..=2 * maxlen).map(sequences).collect();
+    let per: Vec<(u64, Vec<(String, String, ReplicatedValue, bool)>)> = par::par_map(&unis, |_, &(a, b)| {
         let deltas = universe_deltas(&hs[a], &hs[b]);
         let mut seen: BTreeSet<String> = BTreeSet::new();
         let mut out = Vec::new();
-        for seq in sequences(deltas.len()) {
-            let mut v = deltas[seq[0]].1.clone();
-            for &i in &seq[1..] {
-                v = v.merge(&deltas[i].1);
-            }
+        let seqs = &seqs_by_n[deltas.len()];
+        // sequences are generated by length, each extending an earlier one: reuse the partial merges
+        let mut partial: BTreeMap<&[usize], ReplicatedValue> = BTreeMap::new();
+        for seq in seqs {
+            let v = if seq.len() == 1 {
+                deltas[seq[0]].1.clone()
+            } else {
+                partial[&seq[..seq.len() - 1]].merge(&deltas[seq[seq.len() - 1]].1)
+            };
             let c = canon_value(&v);
             if seen.insert(c.clone()) {
                 let recipe = format!(
@@ -276,19 +281,21 @@ fn value_space(maxlen: usize) -> ValueSpace {
                     hs[b].join(","),
                     seq.iter().map(|&i| deltas[i].0.clone()).collect::<Vec<_>>().join(">")
                 );
-                out.push((c, recipe, v, seq.len() == 1));
+                out.push((c, recipe, v.clone(), seq.len() == 1));
+            }
+            if seq.len() < deltas.len() {
+                partial.insert(&seq[..], v);
             }
         }
-        out
+        (seqs.len() as u64, out)
     });
     let mut index: BTreeMap<String, usize> = BTreeMap::new();
     let mut vals: Vec<Val> = Vec::new();
     let mut joint: BTreeSet<(usize, usize)> = BTreeSet::new();
     let mut base: BTreeSet<usize> = BTreeSet::new();
     let mut merges = 0u64;
-    for (u, list) in per.iter().enumerate() {
-        let n = universe_deltas(&hs[unis[u].0], &hs[unis[u].1]).len();
-        merges += sequences(n).len() as u64;
+    for (nseq, list) in per.iter() {
+        merges += nseq;
         let mut ids = Vec::new();
         for (c, recipe, v, is_base) in list {
             let id = *index.entry(c.clone()).or_insert_with(|| {
